@@ -225,7 +225,7 @@ func (ex *Explorer) enqueue(prefix []int) {
 
 func (ex *Explorer) runPath(prefix []int, ss *solverSet) (res *PathResult) {
 	p := &Path{ex: ex, prefix: prefix, declSet: map[string]bool{}, inputSort: map[string]Sort{},
-		counters: map[string]int{}, varIv: map[string]ival{}, bounds: map[string]int64{}}
+		counters: map[string]int{}, varIv: map[string]ival{}, bounds: map[string]int64{}, memo: map[string]interface{}{}, facts: map[string]bool{}}
 	i := &interpreter{prog: ex.Prog, ex: ex, path: p, ss: ss,
 		globals: map[*ssa.Global]*value{}, pkgInit: map[*ssa.Package]int{},
 		sizes: &types.StdSizes{WordSize: 8, MaxAlign: 8}, trace: ex.Trace,
